@@ -22,7 +22,7 @@ type c16 struct{}
 func init() { fw.Register(c16{}) }
 
 var c16Cmds = []string{"view", "view-raw", "diff", "copy", "sum", "sum-copy", "sum-diff", "generate"}
-var c16Faults = []string{"none", "none", "textout-missing-dir", "textout-is-dir", "textout-unwritable", "textout-dev-full", "source-missing", "source-garbage", "source-truncated", "dest-readonly-dir", "dest-parent-is-file", "layout-mismatch", "dest-missing", "empty-sources-dest-absent"}
+var c16Faults = []string{"none", "none", "textout-missing-dir", "textout-is-dir", "textout-unwritable", "textout-dev-full", "source-missing", "source-garbage", "source-truncated", "dest-readonly-dir", "dest-parent-is-file", "layout-mismatch", "dest-missing", "empty-sources-dest-absent", "dest-write-fails"}
 var c16Archs = []string{"all", "first", "last", "n", "-2"}
 var c16Windows = []string{"default", "past-inside", "future", "older-than-finest", "older-than-all", "degenerate"}
 var c16TextOuts = []string{"file", "", "-"}
@@ -31,7 +31,7 @@ func (c16) Meta() fw.Meta {
 	return fw.Meta{
 		ID: "C16",
 		Rule: "case = one invocation of the real binary from the product subcommand {view, view-raw, diff, copy, sum, sum-copy, sum-diff, generate} x archive selection {all, first, last, n (out of range), -2} x window {default, past inside, future, older than the finest retention, older than all, degenerate} " +
-			"x fault {none, -text-out in a non-existent directory / is a directory / unwritable (child runs as uid 65534) / on a full device, source missing / garbage / truncated, destination directory read-only for the child's uid / parent is a regular file, layout mismatch, destination missing, never-written sources with an absent destination} x -text-out {file, empty, stdout}. " +
+			"x fault {none, -text-out in a non-existent directory / is a directory / unwritable (child runs as uid 65534) / on a full device, source missing / garbage / truncated, destination directory read-only for the child's uid / parent is a regular file, layout mismatch, destination missing, never-written sources with an absent destination, every page write to the destination failing with ENOSPC (strace injection into pwritev)} x -text-out {file, empty, stdout}. " +
 			"quick covers every (subcommand, fault) and (subcommand, archive selection) pair with windows and text-out modes cycling; thorough enumerates the whole product. " +
 			"oracle: output never contains a Go panic/fatal error and the process is not killed by a signal; exit 0 (or 1 for diff/sum-diff) => the work is observable: the -text-out file exists and holds the command's output (header, now: lines, the number of point lines the library computes for that window), copy/sum-copy destinations satisfy the C08/C11 effect oracle, generate's file exists with the requested header; " +
 			"an unopenable or unflushable -text-out, a missing/garbage/truncated input, an out-of-range archive id, an uncreatable destination or a layout mismatch => exit != 0 (the exact verdict for a missing side of diff is C09's business). " +
@@ -40,7 +40,7 @@ func (c16) Meta() fw.Meta {
 			"the harness runs as root and drops the child to uid 65534 for the permission faults; scratch directories are made world-traversable for those cases",
 			"point-line counts are only compared when the second did not change across the process",
 		},
-		Obligations: []string{"invocations", "success_effect_checked", "fault_reported", "textout_file_checked", "absent_series_invocations", "out_of_range_archive_reported", "diff_missing_side_exit1", "uid_dropped_runs", "two_item_fault_runs", "created_with_nothing_to_copy_runs"},
+		Obligations: []string{"invocations", "success_effect_checked", "fault_reported", "textout_file_checked", "absent_series_invocations", "out_of_range_archive_reported", "diff_missing_side_exit1", "uid_dropped_runs", "two_item_fault_runs", "created_with_nothing_to_copy_runs", "destination_write_failures_injected"},
 		Workers:     12,
 		Level:       "fault_enumeration",
 	}
@@ -185,6 +185,7 @@ func (c16) Run(c *fw.Ctx) {
 	os.Chmod(filepath.Dir(toFile), 0777)
 	uid := uint32(0)
 	expectFail := ""
+	straceLog := ""
 	switch fault {
 	case "textout-missing-dir":
 		toFile = filepath.Join(dir, "no", "such", "dir", "text.out")
@@ -270,6 +271,14 @@ func (c16) Run(c *fw.Ctx) {
 			os.Remove(sumDest)
 			c.Count("created_with_nothing_to_copy_runs", 1)
 		}
+	case "dest-write-fails":
+		// every write of page images to the destination fails with ENOSPC (injected into the command's own pwritev
+		// calls: the device is full). Whether any such write was attempted is read from the injector's log.
+		if writesDest {
+			straceLog = filepath.Join(dir, "inject.log")
+			c.Env.State["cli_wrapper"] = []string{"strace", "-f", "-o", straceLog, "-e", "trace=pwritev", "-e", "inject=pwritev:error=ENOSPC"}
+			defer delete(c.Env.State, "cli_wrapper")
+		}
 	case "dest-missing":
 		if cmdName == "diff" || cmdName == "sum-diff" {
 			os.Remove(destFile)
@@ -299,6 +308,16 @@ func (c16) Run(c *fw.Ctx) {
 	c.Count("invocations", 1)
 	if uid != 0 {
 		c.Count("uid_dropped_runs", 1)
+	}
+	if straceLog != "" {
+		delete(c.Env.State, "cli_wrapper")
+		failedWrites := strings.Count(string(readFileOrNil(straceLog)), "ENOSPC")
+		if failedWrites > 0 {
+			c.Count("destination_write_failures_injected", 1)
+			if expectFail == "" {
+				expectFail = "destination cannot be written (device full)"
+			}
+		}
 	}
 	sc := fw.J{"cmd": cmdName, "fault": fault, "archive": archSel, "window": window, "text_out": textOut, "expect_failure": expectFail}
 	det := fw.J{"scenario": sc, "run": res.brief()}
@@ -332,7 +351,11 @@ func (c16) Run(c *fw.Ctx) {
 			}
 		}
 		if !okExit {
-			c.Violationf("silent-success:"+strings.ReplaceAll(expectFail, " ", "-"), det, "%s exited %d although %s", cmdName, res.Exit, expectFail)
+			key := "silent-success:" + strings.ReplaceAll(expectFail, " ", "-")
+			if strings.HasPrefix(expectFail, "destination cannot be written") {
+				key = "silent-success:destination-write-fails:" + cmdName
+			}
+			c.Violationf(key, det, "%s exited %d although %s", cmdName, res.Exit, expectFail)
 			return
 		}
 		if expectFail == "archive id out of range" {
